@@ -2,6 +2,10 @@
 """Prints the prompt for a seeded-defect sub-agent for property <id> working in <worktree>."""
 import json, sys
 pid, wt = sys.argv[1], sys.argv[2]
+import glob, os
+avoid = []
+for d in sorted(glob.glob(f"/verif/seeded/{pid}-*/meta.json")):
+    avoid.append(json.load(open(d))["needs_to_manifest"])
 p = [json.loads(l) for l in open('/verif/properties.jsonl') if json.loads(l)['id'] == pid][0]
 print(f"""You are helping to evaluate a verification effort for the open-source RPKI relying-party software NLnetLabs/routinator (Rust). Your task is to SEED ONE REALISTIC DEFECT into a scratch copy of the repository, so that the following behavioural property no longer holds, while the code still compiles and the existing test suite still passes.
 
@@ -18,4 +22,4 @@ What to deliver:
 3. A DEMONSTRATION: a small Rust test or program (e.g. a new file under {wt}/tests/ or a `#[test]` added in a *separate* commit, or a shell script driving the built binary) that FAILS with your change and PASSES without it, and that shows the property violation through observable behaviour (not by inspecting the changed line).
 4. Commit the defect as one commit and the demonstration as a separate commit in {wt} (git add/commit there), and write {wt}/SEED_REPORT.md with: which property, the idea of the defect, what is needed for it to manifest, exact commands to run the demonstration with and without the defect (e.g. `git stash`/`git revert` instructions or `git checkout <sha>`), and their observed results.
 
-Before you start, read the relevant source files to understand how the property is currently ensured. Finish by replying with a short summary (defect idea, files changed, how to reproduce).""")
+""" + (("IDEAS ALREADY USED by earlier seeded defects for this property — choose a clearly DIFFERENT mechanism, code site and trigger:\n" + "\n".join("- " + a for a in avoid) + "\n\n") if avoid else "") + """Before you start, read the relevant source files to understand how the property is currently ensured. Finish by replying with a short summary (defect idea, files changed, how to reproduce).""")
